@@ -42,3 +42,52 @@ pub fn any_below(n: u8) -> u8 {
     kani::assume(v < n);
     v
 }
+
+// ---------------------------------------------------------------------------------------------------------------------------
+/// Array-backed stand-in for `Vec` (capacity 6, dense initialised prefix of `MaybeUninit` slots - no niche-encoded `Option`s, see
+/// DESIGN 6.2). Harness modules import it as `Vec` (plus a local `vec!` macro) so that lifted text compiles unchanged while CBMC
+/// never sees a `memmove` with a symbolic length or an allocation.
+pub struct ArrVec<T> { pub v: [core::mem::MaybeUninit<T>; 6], pub n: usize }
+impl<T> ArrVec<T> {
+    pub fn new() -> Self { ArrVec { v: [core::mem::MaybeUninit::uninit(), core::mem::MaybeUninit::uninit(), core::mem::MaybeUninit::uninit(), core::mem::MaybeUninit::uninit(), core::mem::MaybeUninit::uninit(), core::mem::MaybeUninit::uninit()], n: 0 } }
+    pub fn with_capacity(_c: usize) -> Self { Self::new() }
+    pub fn len(&self) -> usize { self.n }
+    pub fn is_empty(&self) -> bool { self.n == 0 }
+    pub fn push(&mut self, t: T) { assert!(self.n < 6, "mock vec capacity"); let n = self.n; self.v[n].write(t); self.n += 1; }
+    pub fn pop(&mut self) -> Option<T> { if self.n == 0 { None } else { self.n -= 1; let n = self.n; Some(unsafe { self.v[n].assume_init_read() }) } }
+    pub fn remove(&mut self, i: usize) -> T {
+        assert!(i < self.n, "removal index out of bounds");
+        let r = unsafe { self.v[i].assume_init_read() };
+        let mut k = 0;
+        while k < 5 { if k >= i && k + 1 < self.n { let nx = unsafe { self.v[k + 1].assume_init_read() }; self.v[k].write(nx); } k += 1; }
+        self.n -= 1;
+        r
+    }
+    pub fn swap_remove(&mut self, i: usize) -> T {
+        assert!(i < self.n, "swap_remove index out of bounds");
+        let r = unsafe { self.v[i].assume_init_read() }; let last = self.n - 1;
+        if i != last { let l = unsafe { self.v[last].assume_init_read() }; self.v[i].write(l); }
+        self.n -= 1;
+        r
+    }
+    pub fn append(&mut self, other: &mut ArrVec<T>) { let mut k = 0; while k < 6 { if k < other.n { let x = unsafe { other.v[k].assume_init_read() }; self.push(x); } k += 1; } other.n = 0; }
+    pub fn last(&self) -> Option<&T> { if self.n == 0 { None } else { Some(unsafe { self.v[self.n - 1].assume_init_ref() }) } }
+    pub fn last_mut(&mut self) -> Option<&mut T> { if self.n == 0 { None } else { let n = self.n - 1; Some(unsafe { self.v[n].assume_init_mut() }) } }
+    pub fn first(&self) -> Option<&T> { if self.n == 0 { None } else { Some(unsafe { self.v[0].assume_init_ref() }) } }
+    pub fn get(&self, i: usize) -> Option<&T> { if i < self.n { Some(unsafe { self.v[i].assume_init_ref() }) } else { None } }
+    pub fn get_mut(&mut self, i: usize) -> Option<&mut T> { if i < self.n { Some(unsafe { self.v[i].assume_init_mut() }) } else { None } }
+    pub fn iter(&self) -> std::iter::Map<std::iter::Take<std::slice::Iter<'_, core::mem::MaybeUninit<T>>>, fn(&core::mem::MaybeUninit<T>) -> &T> { let n = self.n; self.v.iter().take(n).map(arr_init_ref as fn(&core::mem::MaybeUninit<T>) -> &T) }
+    pub fn iter_mut(&mut self) -> std::iter::Map<std::iter::Take<std::slice::IterMut<'_, core::mem::MaybeUninit<T>>>, fn(&mut core::mem::MaybeUninit<T>) -> &mut T> { let n = self.n; self.v.iter_mut().take(n).map(arr_init_mut as fn(&mut core::mem::MaybeUninit<T>) -> &mut T) }
+    pub fn retain<F: FnMut(&T) -> bool>(&mut self, mut f: F) { let mut i = 0; while i != self.n { if f(unsafe { self.v[i].assume_init_ref() }) { i += 1; } else { let t = self.remove(i); std::mem::forget(t); } } }
+}
+pub fn arr_init_mut<T>(m: &mut core::mem::MaybeUninit<T>) -> &mut T { unsafe { m.assume_init_mut() } }
+pub fn arr_init_ref<T>(m: &core::mem::MaybeUninit<T>) -> &T { unsafe { m.assume_init_ref() } }
+impl<T> Default for ArrVec<T> { fn default() -> Self { Self::new() } }
+impl<T> std::ops::Index<usize> for ArrVec<T> { type Output = T; fn index(&self, i: usize) -> &T { assert!(i < self.n, "index out of bounds"); unsafe { self.v[i].assume_init_ref() } } }
+impl<T> std::ops::IndexMut<usize> for ArrVec<T> { fn index_mut(&mut self, i: usize) -> &mut T { assert!(i < self.n, "index out of bounds"); unsafe { self.v[i].assume_init_mut() } } }
+impl<'a, T> IntoIterator for &'a mut ArrVec<T> { type Item = &'a mut T; type IntoIter = std::iter::Map<std::iter::Take<std::slice::IterMut<'a, core::mem::MaybeUninit<T>>>, fn(&'a mut core::mem::MaybeUninit<T>) -> &'a mut T>; fn into_iter(self) -> Self::IntoIter { let n = self.n; self.v.iter_mut().take(n).map(arr_init_mut as fn(&'a mut core::mem::MaybeUninit<T>) -> &'a mut T) } }
+impl<'a, T> IntoIterator for &'a ArrVec<T> { type Item = &'a T; type IntoIter = std::iter::Map<std::iter::Take<std::slice::Iter<'a, core::mem::MaybeUninit<T>>>, fn(&'a core::mem::MaybeUninit<T>) -> &'a T>; fn into_iter(self) -> Self::IntoIter { let n = self.n; self.v.iter().take(n).map(arr_init_ref as fn(&'a core::mem::MaybeUninit<T>) -> &'a T) } }
+pub struct ArrIntoIter<T> { pub a: ArrVec<T>, pub i: usize }
+impl<T> Iterator for ArrIntoIter<T> { type Item = T; fn next(&mut self) -> Option<T> { if self.i < self.a.n { let i = self.i; self.i += 1; Some(unsafe { self.a.v[i].assume_init_read() }) } else { None } } }
+impl<T> IntoIterator for ArrVec<T> { type Item = T; type IntoIter = ArrIntoIter<T>; fn into_iter(self) -> ArrIntoIter<T> { ArrIntoIter { a: self, i: 0 } } }
+impl<T> std::iter::FromIterator<T> for ArrVec<T> { fn from_iter<I: IntoIterator<Item = T>>(it: I) -> Self { let mut v = ArrVec::new(); for x in it { v.push(x); } v } }
